@@ -148,6 +148,20 @@ def run(chk, R, tier, seed):
                      ["c", XR, [U(a), ["i", m2], U(b), num(ta * m2)]],
                      "rate %s->%s %s per 1 as multiples %d and %d" %
                      (a, b, ta, m1, m2), "rate-eq-hash"))
+    for _ in range(60 if tier == "quick" else 600):
+        a, b = rng.sample(["EUR", "USD", "GBP", "JPY"], 2)
+        ta = rng.choice([F(1, 2), F(3, 2), F(5, 4), F(125), F(1, 8),
+                         F(25, 2)])
+        add(pair_sub(chk, "rate",
+                     ["c", XR, [U(a), ["i", 1], U(b), num(ta, "fl")]],
+                     ["c", XR, [U(a), ["i", 1], U(b), num(ta, "D")]],
+                     "rate %s->%s %s as float and as Decimal" % (a, b, ta),
+                     "rate-eq-hash"))
+        r1 = ["c", XR, [U(a), ["i", 1], U(b), num(ta, "D")]]
+        add(pair_sub(chk, "rate", r1,
+                     M(M(r1, "inverted"), "inverted"),
+                     "rate %s->%s %s and the inverse of its inverse" %
+                     (a, b, ta), "rate-eq-hash"))
     # 6 converter mediated: temperature
     from .c14 import TEMP
     for _ in range(60 if tier == "quick" else 1000):
